@@ -79,6 +79,9 @@ def gen_plan(seed, tier="quick"):
         ns = r.randrange(1500, 40000)
     ns = min(ns, 40000)
     nproc = r.choice([1, 2, 2, 3, 4, 4, 5, 6, 7, 8, 12])      # 12 = the default (3/4 of 16 CPUs)
+    if tier == "thorough" and r.random() < 0.15:              # deeper bounds in the thorough tier
+        nproc = r.choice([10, 16, 24])
+        ns = min(80000, ns * 2)
     if nap >= 64:
         ns = min(ns, 20000)
     maxint = 512 if fixture == "NP1" else 8192
@@ -578,6 +581,8 @@ def _run(plan, base):
         # for the reader of the replay file: the schedule that was actually executed
         # ([worker, lines run, why] slices); replay re-derives it from sched_seed unless "trace" is set
         xplan["recorded_schedule"] = next((e[4] for e in reversed(log) if e[0] == "sim"), None)
+        if SCHED.delay is not None and SCHED.delay.get("site"):
+            xplan["held_at"] = {"task": SCHED.delay.get("task"), "before_line": SCHED.delay["site"]}   # for the reader of the replay file
     stats["distinct"].append(f"geom|{ns % stride}|{plan['nbatch']}|{plan['nproc']}")
     stats["outcomes"]["violation" if viol else "held"] = 1
     return {"violation": viol, "stats": stats, "digest": digest(log), "plan": xplan,
